@@ -535,6 +535,62 @@ fn verif_fib_cases() {
     val::run_cases(run_fib_case);
 }
 
+/// case = [cfg, shards, pre ops, insert op, reachability reports]: after the history
+/// `pre` a second thread runs insert_route up to its shard-lock acquisition
+/// (scheduling point 1); this thread then performs the reports completely and lets
+/// the insert finish.  observation = one [requests, rib view] per op of `pre`, then
+/// one for the race as a whole.
+fn run_fib_race_case(case: &Val) -> Val {
+    let mut w = mk_world(case.at(0), case.at(1).usize().max(1));
+    let (h, mut rx) = kernel::KernelHandle::verif_capture();
+    w.tm.kernel_handle.store(Some(Arc::new(h)));
+    let mut out = Vec::new();
+    for op in case.at(2).list() {
+        fib_op(&mut w, op);
+        let reqs = drain(&mut rx);
+        out.push(Val::L(vec![reqs, rib_view(&w)]));
+    }
+    let op = case.at(3);
+    let src = w.src(op.at(1).u32(), op.at(2).u32());
+    let (f, n) = mk_net(op.at(3).u32(), op.at(4).u32());
+    let nh = op.at(6).list().first().map(nh_of_val);
+    let tok = op.at(7).u32();
+    let attr = w.attrs.iter().find(|(t, _)| *t == tok).expect("attr token").1.clone();
+    let pid = op.at(5).u32();
+    let sched = Arc::new(Sched::new(1));
+    {
+        let tm = &w.tm;
+        std::thread::scope(|sc| {
+            let s1 = sched.clone();
+            sc.spawn(move || {
+                let s2 = s1.clone();
+                verif_sched::install(Box::new(move |_id| s2.park(0)));
+                let r = std::panic::catch_unwind(std::panic::AssertUnwindSafe(|| {
+                    tm.insert_route(src, f, packet::PathNlri { nlri: n, path_id: pid }, nh, attr, None, 0);
+                }));
+                s1.finish(0);
+                if let Err(e) = r {
+                    std::panic::resume_unwind(e);
+                }
+            });
+            // the inserter is parked before its shard lock (or has finished, were the point removed)
+            sched.settle(0);
+            for m in case.at(4).list() {
+                tm.update_nexthop_validity(addr_of_id(m.at(1).u32()), m.at(2).bool());
+            }
+            while sched.grant(0) {}
+        });
+    }
+    let reqs = drain(&mut rx);
+    out.push(Val::L(vec![reqs, rib_view(&w)]));
+    Val::L(out)
+}
+
+#[test]
+fn verif_fib_race_cases() {
+    val::run_cases(run_fib_race_case);
+}
+
 // ------------------------------------------------------------------ C18
 // Real threads run the real TableManager code; a deterministic scheduler grants
 // one step at a time in the order the case dictates.  A step is the stretch of
